@@ -79,6 +79,8 @@ func writeJSON(b *strings.Builder, n Node) {
 		b.WriteString(strconv.Itoa(v))
 	case float64:
 		b.WriteString(strconv.FormatFloat(v, 'f', -1, 64))
+	case NumLit:
+		b.WriteString(string(v))
 	case Map:
 		b.WriteByte('{')
 		for i, e := range v {
@@ -132,6 +134,8 @@ func yscalar(n Node) (string, bool) {
 		return strconv.Itoa(v), true
 	case float64:
 		return strconv.FormatFloat(v, 'f', -1, 64), true
+	case NumLit:
+		return string(v), true
 	case Map:
 		if len(v) == 0 {
 			return "{}", true
@@ -143,6 +147,10 @@ func yscalar(n Node) (string, bool) {
 	}
 	return "", false
 }
+
+// NumLit is a number written with the given spelling in all three formats (1.0, 2.50, 1e3: valid float literals of
+// YAML, JSON and TOML alike that are not the shortest spelling of their value).
+type NumLit string
 
 // RawKey marks a map key that the YAML emitter writes verbatim (unquoted): 1, true, null, [a] ...
 // JSON and TOML write it as a string without the marker.
@@ -243,6 +251,8 @@ func tinline(n Node) string {
 			s += ".0"
 		}
 		return s
+	case NumLit:
+		return string(v)
 	case List:
 		parts := make([]string, len(v))
 		for i, e := range v {
